@@ -600,7 +600,58 @@ func inject(t *rapid.T, s *codecx.Schema, st site) string {
 			}
 			return "wrong-type:object"
 		default:
-			v.Members = append(v.Members, jx.Member{Key: pick("uk", "noSuchField", "", "NoSuchField", "no_such_field"), Val: jx.S("x")})
+			key := pick("uk", "noSuchField", "", "NoSuchField", "no_such_field", "sibling", "sibling", "sibling")
+			if key == "sibling" {
+				// another spelling of a member the object does have: snake_case,
+				// UpperCamel, all lower case, a trailing underscore. Not its JSON name,
+				// so an unknown key - and one a lenient lookup would take for the member
+				key = "noSuchField"
+				if md := s.Find(strings.TrimPrefix(tag, "object:")); md != nil {
+					var names, absent []string
+					inDoc := map[string]bool{}
+					for _, m := range v.Members {
+						inDoc[m.Key] = true
+					}
+					for _, p := range j5ref.Props(md) {
+						names = append(names, p.Name)
+						// a member the document leaves out, with a value it would take
+						if fd := md.Fields().ByJSONName(p.Name); fd != nil && !inDoc[p.Name] && simpleValid(fd) != nil && fd.ContainingOneof() == nil {
+							absent = append(absent, p.Name)
+						}
+					}
+					if len(absent) > 0 {
+						n := rapid.SampledFrom(absent).Draw(t, "siblingname")
+						var snake strings.Builder
+						for i, r := range n {
+							if r >= 'A' && r <= 'Z' {
+								if i > 0 {
+									snake.WriteByte('_')
+								}
+								r = r - 'A' + 'a'
+							}
+							snake.WriteRune(r)
+						}
+						alt := pick("respell", snake.String(), strings.ToUpper(n[:1])+n[1:], strings.ToLower(n), n+"_", "_"+n)
+						taken := false
+						for _, x := range names {
+							if x == alt {
+								taken = true
+							}
+						}
+						for _, m := range v.Members {
+							if m.Key == alt {
+								taken = true
+							}
+						}
+						if !taken && alt != n {
+							key = alt
+							v.Members = append(v.Members, jx.Member{Key: key, Val: simpleValid(md.Fields().ByJSONName(n))})
+							return "unknown-key:respelled-sibling"
+						}
+					}
+				}
+			}
+			v.Members = append(v.Members, jx.Member{Key: key, Val: jx.S("x")})
 			return "unknown-key"
 		}
 	case strings.HasPrefix(tag, "oneof:") || strings.HasPrefix(tag, "exposed:"):
